@@ -28,11 +28,182 @@ pub const ALL_EVENTS: [Event; 13] = [
     Event::Signal,
 ];
 
+// Replay files must not depend on the code under test more than the run itself
+// does: a change that breaks the machine (de)serialiser must not make the replay
+// file of the violation it causes unreadable. Machines are therefore written
+// field by field through the public structures as a list of u64 words (floats
+// as their bit patterns), not with the crate's serde implementation.
+struct W(Vec<u64>);
+impl W {
+    fn u(&mut self, v: u64) { self.0.push(v); }
+    fn b(&mut self, v: bool) { self.0.push(v as u64); }
+    fn f(&mut self, v: f64) { self.0.push(v.to_bits()); }
+    fn dist(&mut self, d: &Dist) {
+        match d.dist {
+            DistType::Uniform { low, high } => { self.u(0); self.f(low); self.f(high); }
+            DistType::Normal { mean, stdev } => { self.u(1); self.f(mean); self.f(stdev); }
+            DistType::SkewNormal { location, scale, shape } => { self.u(2); self.f(location); self.f(scale); self.f(shape); }
+            DistType::LogNormal { mu, sigma } => { self.u(3); self.f(mu); self.f(sigma); }
+            DistType::Binomial { trials, probability } => { self.u(4); self.u(trials); self.f(probability); }
+            DistType::Geometric { probability } => { self.u(5); self.f(probability); }
+            DistType::Pareto { scale, shape } => { self.u(6); self.f(scale); self.f(shape); }
+            DistType::Poisson { lambda } => { self.u(7); self.f(lambda); }
+            DistType::Weibull { scale, shape } => { self.u(8); self.f(scale); self.f(shape); }
+            DistType::Gamma { scale, shape } => { self.u(9); self.f(scale); self.f(shape); }
+            DistType::Beta { alpha, beta } => { self.u(10); self.f(alpha); self.f(beta); }
+        }
+        self.f(d.start);
+        self.f(d.max);
+    }
+    fn odist(&mut self, d: &Option<Dist>) {
+        match d { Some(d) => { self.u(1); self.dist(d); } None => self.u(0) }
+    }
+    fn counter(&mut self, c: &Option<Counter>) {
+        match c {
+            None => self.u(0),
+            Some(c) => {
+                self.u(1);
+                self.u(match c.operation { Operation::Increment => 0, Operation::Decrement => 1, Operation::Set => 2 });
+                self.b(c.copy);
+                self.odist(&c.dist);
+            }
+        }
+    }
+}
+struct Rd<'a>(&'a [u64], usize);
+impl Rd<'_> {
+    fn u(&mut self) -> Option<u64> { let v = *self.0.get(self.1)?; self.1 += 1; Some(v) }
+    fn b(&mut self) -> Option<bool> { Some(self.u()? != 0) }
+    fn f(&mut self) -> Option<f64> { Some(f64::from_bits(self.u()?)) }
+    fn dist(&mut self) -> Option<Dist> {
+        let dist = match self.u()? {
+            0 => DistType::Uniform { low: self.f()?, high: self.f()? },
+            1 => DistType::Normal { mean: self.f()?, stdev: self.f()? },
+            2 => DistType::SkewNormal { location: self.f()?, scale: self.f()?, shape: self.f()? },
+            3 => DistType::LogNormal { mu: self.f()?, sigma: self.f()? },
+            4 => DistType::Binomial { trials: self.u()?, probability: self.f()? },
+            5 => DistType::Geometric { probability: self.f()? },
+            6 => DistType::Pareto { scale: self.f()?, shape: self.f()? },
+            7 => DistType::Poisson { lambda: self.f()? },
+            8 => DistType::Weibull { scale: self.f()?, shape: self.f()? },
+            9 => DistType::Gamma { scale: self.f()?, shape: self.f()? },
+            10 => DistType::Beta { alpha: self.f()?, beta: self.f()? },
+            _ => return None,
+        };
+        Some(Dist { dist, start: self.f()?, max: self.f()? })
+    }
+    fn odist(&mut self) -> Option<Option<Dist>> {
+        Some(if self.u()? != 0 { Some(self.dist()?) } else { None })
+    }
+    fn counter(&mut self) -> Option<Option<Counter>> {
+        if self.u()? == 0 { return Some(None); }
+        let operation = match self.u()? { 0 => Operation::Increment, 1 => Operation::Decrement, 2 => Operation::Set, _ => return None };
+        let copy = self.b()?;
+        let dist = self.odist()?;
+        Some(Some(Counter { operation, dist, copy }))
+    }
+}
+
+pub fn enc_dist(d: &Dist) -> String {
+    let mut w = W(Vec::new());
+    w.dist(d);
+    let words: Vec<String> = w.0.iter().map(|v| format!("{v:x}")).collect();
+    format!("d1:{}", words.join(","))
+}
+pub fn dec_dist(s: &str) -> Option<Dist> {
+    let words: Vec<u64> = s
+        .strip_prefix("d1:")?
+        .split(',')
+        .map(|t| u64::from_str_radix(t, 16).ok())
+        .collect::<Option<_>>()?;
+    let mut r = Rd(&words, 0);
+    let d = r.dist()?;
+    (r.1 == words.len()).then_some(d)
+}
+
 pub fn enc(m: &Machine) -> String {
-    hex::encode(bincode::serialize(m).expect("bincode"))
+    let mut w = W(Vec::new());
+    w.u(m.allowed_padding_packets);
+    w.f(m.max_padding_frac);
+    w.u(m.allowed_blocked_microsec);
+    w.f(m.max_blocking_frac);
+    w.u(m.states.len() as u64);
+    for s in &m.states {
+        match &s.action {
+            None => w.u(0),
+            Some(Action::Cancel { timer }) => {
+                w.u(1);
+                w.u(match timer { Timer::Action => 0, Timer::Internal => 1, Timer::All => 2 });
+            }
+            Some(Action::SendPadding { bypass, replace, timeout, limit }) => {
+                w.u(2); w.b(*bypass); w.b(*replace); w.dist(timeout); w.odist(limit);
+            }
+            Some(Action::BlockOutgoing { bypass, replace, timeout, duration, limit }) => {
+                w.u(3); w.b(*bypass); w.b(*replace); w.dist(timeout); w.dist(duration); w.odist(limit);
+            }
+            Some(Action::UpdateTimer { replace, duration, limit }) => {
+                w.u(4); w.b(*replace); w.dist(duration); w.odist(limit);
+            }
+        }
+        w.counter(&s.counter.0);
+        w.counter(&s.counter.1);
+        let t = s.get_transitions();
+        for e in ALL_EVENTS {
+            w.u(t[e].len() as u64);
+            for Trans(to, p) in &t[e] {
+                w.u(*to as u64);
+                w.u(p.to_bits() as u64);
+            }
+        }
+    }
+    let words: Vec<String> = w.0.iter().map(|v| format!("{v:x}")).collect();
+    format!("m1:{}", words.join(","))
 }
 pub fn dec(s: &str) -> Option<Machine> {
-    bincode::deserialize(&hex::decode(s).ok()?).ok()
+    let Some(body) = s.strip_prefix("m1:") else {
+        // files written before the structural format: hex of the crate's bincode
+        return bincode::deserialize(&hex::decode(s).ok()?).ok();
+    };
+    let words: Vec<u64> = body
+        .split(',')
+        .map(|t| u64::from_str_radix(t, 16).ok())
+        .collect::<Option<_>>()?;
+    let mut r = Rd(&words, 0);
+    let allowed_padding_packets = r.u()?;
+    let max_padding_frac = r.f()?;
+    let allowed_blocked_microsec = r.u()?;
+    let max_blocking_frac = r.f()?;
+    let n = r.u()? as usize;
+    let mut states = Vec::new();
+    for _ in 0..n {
+        let action = match r.u()? {
+            0 => None,
+            1 => Some(Action::Cancel {
+                timer: match r.u()? { 0 => Timer::Action, 1 => Timer::Internal, 2 => Timer::All, _ => return None },
+            }),
+            2 => Some(Action::SendPadding { bypass: r.b()?, replace: r.b()?, timeout: r.dist()?, limit: r.odist()? }),
+            3 => Some(Action::BlockOutgoing { bypass: r.b()?, replace: r.b()?, timeout: r.dist()?, duration: r.dist()?, limit: r.odist()? }),
+            4 => Some(Action::UpdateTimer { replace: r.b()?, duration: r.dist()?, limit: r.odist()? }),
+            _ => return None,
+        };
+        let c0 = r.counter()?;
+        let c1 = r.counter()?;
+        let mut t: EnumMap<Event, Vec<Trans>> = enum_map! { _ => vec![] };
+        for e in ALL_EVENTS {
+            let k = r.u()? as usize;
+            for _ in 0..k {
+                let to = r.u()? as usize;
+                let p = f32::from_bits(r.u()? as u32);
+                t[e].push(Trans(to, p));
+            }
+        }
+        let mut st = State::new(t);
+        st.action = action;
+        st.counter = (c0, c1);
+        states.push(st);
+    }
+    if r.1 != words.len() { return None; }
+    Some(Machine { allowed_padding_packets, max_padding_frac, allowed_blocked_microsec, max_blocking_frac, states })
 }
 pub fn enc_all(ms: &[Machine]) -> Vec<String> {
     ms.iter().map(enc).collect()
@@ -222,7 +393,13 @@ impl MachCfg {
 }
 
 fn wild_f(g: &mut Gen) -> f64 {
-    match g.below(12) {
+    // 12..15: values validation must turn away wherever a parameter has to be
+    // finite / positive; they reach the sampler only if validation is relaxed
+    match g.below(16) {
+        12 => f64::NAN,
+        13 => f64::INFINITY,
+        14 => -1.0,
+        15 => -1e-300,
         0 => 0.0,
         1 => 1.0,
         2 => 0.5,
@@ -279,11 +456,24 @@ pub fn wild_dist(g: &mut Gen) -> Dist {
                 sigma: wild_f(g),
             },
             4 => DistType::Binomial {
-                trials: *g.pick(&[0, 1, 2, 10, 1000, 1_000_000, 1_000_000_000, 999_999_999]),
-                probability: *g.pick(&[0.0, 1e-9, 1e-6, 0.001, 0.3, 0.5, 0.9, 1.0 - 1e-9, 1.0]),
+                // candidates reach one step beyond every limit validation sets
+                // (trials 1e9, probability 1e-9): on the unchanged tree those are
+                // filtered out below, a relaxed validation lets them through to
+                // the sampler
+                trials: *g.pick(&[
+                    0, 1, 2, 10, 1000, 1_000_000, 1_000_000_000, 999_999_999,
+                    1_000_000_001, 0x7fff_ffff, 0x8000_0000, 0x8000_0001, 3_000_000_000,
+                    1 << 32, 1 << 53, u64::MAX - 1, u64::MAX,
+                ]),
+                probability: *g.pick(&[
+                    0.0, 1e-9, 1e-6, 0.001, 0.3, 0.5, 0.9, 1.0 - 1e-9, 1.0, 1e-10, 5e-324,
+                    1.0 - 1e-12,
+                ]),
             },
             5 => DistType::Geometric {
-                probability: *g.pick(&[0.0, 1e-9, 1e-6, 0.001, 0.3, 0.5, 0.999999, 1.0]),
+                probability: *g.pick(&[
+                    0.0, 1e-9, 1e-6, 0.001, 0.3, 0.5, 0.999999, 1.0, 1e-10, 1e-15, 5e-324,
+                ]),
             },
             6 => DistType::Pareto {
                 scale: wild_f(g),
@@ -902,4 +1092,24 @@ pub fn shrink_machine(m: &Machine) -> Vec<Machine> {
         }
     }
     out
+}
+
+#[cfg(test)]
+mod tests {
+    use super::*;
+    #[test]
+    fn structural_codec_round_trips() {
+        let mut g = Gen::new(7);
+        for i in 0..20000u64 {
+            let fam = match i % 3 { 0 => Family::Det, 1 => Family::Dyadic, _ => Family::Wild };
+            let cfg = MachCfg::new(fam);
+            let m = gen_machine(&mut g, &cfg);
+            let e = enc(&m);
+            let d = dec(&e).expect("decodes");
+            assert_eq!(bincode::serialize(&m).unwrap(), bincode::serialize(&d).unwrap());
+            assert_eq!(enc(&d), e);
+            let old = hex::encode(bincode::serialize(&m).unwrap());
+            assert_eq!(enc(&dec(&old).unwrap()), e);
+        }
+    }
 }
